@@ -25,7 +25,7 @@ def items(a, thorough):
         out.append(dict(name='reset_then_read/g=%d-%d' % (lo, hi), entry='c13_reset_then_read', args=[lo, hi, 0, 0],
                         timeout=to, loop_limit=70, budget_s=120))
     k = 4 if thorough else 3
-    out.append(dict(name='bmc/k=%d/gap<2500' % k, entry='c13_bmc', args=[2500, k, 0, 0], timeout=to, loop_limit=70, budget_s=120))
+    out.append(dict(name='bmc/k=%d/gap<2500' % k, entry='c13_bmc', args=[2500, k, 0, 0], timeout=to, loop_limit=70, budget_s=1500 if thorough else 120))
     out.append(dict(name='bmc/k=2/gap<9000', entry='c13_bmc', args=[9000, 2, 0, 0], timeout=to, loop_limit=70, budget_s=120))
     return out
 
